@@ -104,6 +104,7 @@ LenOf(name, ws, sp) ==
     [] name = "left+1"    -> left + 1
     [] name = "seg"       -> Payload * sp
     [] name = "seg+1"     -> Payload * sp + 1
+    [] name = "huge"      -> 18 * Payload + 100   \* 19 fragments, > 16 pages: larger than any buffer a reader keeps
     [] name = "nearfull"  -> rem - Hdr            \* leaves exactly Hdr bytes: a header fits, no payload
     [] name = "nearfull+1" -> rem - Hdr + 1       \* leaves Hdr-1 bytes: page counts as full
 
